@@ -137,12 +137,12 @@ Definition crash (keep : key -> nat) (fs : fsT) : fsT :=
 Fixpoint prefixb (p s : bytes) : bool :=
   match p, s with
   | [], _ => true
-  | a :: p', b :: s' => N.eqb a b && prefixb p' s'
+  | a :: p', b :: s' => if N.eqb a b then prefixb p' s' else false   (* lazy: vm_compute is strict in && *)
   | _ :: _, [] => false
   end.
 
 Fixpoint infixb (p s : bytes) : bool :=
-  prefixb p s || match s with [] => false | _ :: s' => infixb p s' end.
+  if prefixb p s then true else match s with [] => false | _ :: s' => infixb p s' end.
 
 Definition durable_has (fs : fsT) (m : msg) : bool :=
   existsb (fun kf => infixb (snd m ++ [10]) (flat (f_dur (snd kf)))) fs.
@@ -161,6 +161,16 @@ Definition fs_leb (fs fs' : fsT) : bool :=
         end
     end) fs.
 
+(* operations that can only add (proofs/FileOSProofs.v, safe_op_le: they never shrink or
+   replace anything); the monitor evaluates [fs_leb] only for the others *)
+Definition safe_op (o : op) : bool :=
+  match o with
+  | OCreate _ _ _ trunc _ => negb trunc
+  | OUnlink _ => false
+  | ORename _ _ => false
+  | _ => true
+  end.
+
 (* The property C19 as a decidable predicate over one trace of file operations and
    FINs (what the implementation did), from the file system [fs]:
      - at every FIN the message's body and newline are inside the durable content of
@@ -173,5 +183,5 @@ Fixpoint monitor_trace (fs : fsT) (tr : list op) : bool :=
   | o :: r =>
       let fs' := apply_op fs o in
       (match o with OFin m => durable_has fs m | _ => true end)
-      && fs_leb fs fs' && monitor_trace fs' r
+      && (if safe_op o then true else fs_leb fs fs') && monitor_trace fs' r
   end.
